@@ -19,10 +19,12 @@ Directive grammar (one per line, leading blanks allowed):
   //@before "anchor"     ghost text inserted before the line holding the anchor
   //@after "anchor"      ghost text inserted after the statement holding the anchor
   //@atstart             ghost text inserted right after the opening brace of the body
+  //@atend               ghost text inserted right before the tail expression of the body
   //@afterloop N         ghost text inserted right after the closing brace of the N-th loop
   //@tail NAME           the tail expression E becomes `let NAME = E; <ghost text> NAME` (R16)
   //@replace "old" => "new" :: reason      function-specific rewrite (logged as F)
   //@replaceall "old" => "new" :: reason   the same for every occurrence
+  //@replace? "old" => "new" :: reason     the same, for an expression only some versions of the code contain (absence is not a lost anchor)
   //@replacespan "from" .. "to" => "new" :: reason   a whole block between two anchors (logged as F)
   //@end
 
@@ -485,6 +487,11 @@ class Unit:
                         raise TemplateError('bad name directive: %s' % rest)
                     spec['names'].append((mm.group(1), mm.group(2).replace('\\"', '"')))
                     cur = None
+                elif kw == 'atend':
+                    # //@atend: ghost text placed right before the tail expression of the body (the function's final exit)
+                    ent = dict(where='atend', anchor=None, nth=0, lines=[])
+                    spec['hints'].append(ent)
+                    cur = ent['lines']
                 elif kw == 'afterloop':
                     # //@afterloop N: ghost text placed right after the closing brace of the N-th loop
                     ent = dict(where='afterloop', anchor=None, nth=int(rest.strip()), lines=[])
@@ -512,11 +519,11 @@ class Unit:
                     un = lambda t: t.replace('\\"', '"').replace('<NL>', '\n')
                     spec['spans'].append((un(mm.group(1)), un(mm.group(2)), un(mm.group(3)), mm.group(4)))
                     cur = None
-                elif kw in ('replace', 'replaceall'):
+                elif kw in ('replace', 'replaceall', 'replace?'):
                     mm = re.match(r'"((?:[^"\\]|\\.)*)"\s*=>\s*"((?:[^"\\]|\\.)*)"\s*::\s*(.*)$', rest)
                     if not mm:
                         raise TemplateError('bad replace: %s' % rest)
-                    spec['replaces'].append((mm.group(1).replace('\\"', '"').replace('<NL>', '\n'), mm.group(2).replace('\\"', '"').replace('<NL>', '\n'), mm.group(3) + (' [every occurrence]' if kw == 'replaceall' else '')))
+                    spec['replaces'].append((mm.group(1).replace('\\"', '"').replace('<NL>', '\n'), mm.group(2).replace('\\"', '"').replace('<NL>', '\n'), mm.group(3) + (' [every occurrence]' if kw == 'replaceall' else '') + (' [only in some versions of the code]' if kw == 'replace?' else '')))
                     cur = None
                 else:
                     raise TemplateError('unknown fn sub-directive %r' % kw)
@@ -595,6 +602,8 @@ class Unit:
             if cnt >= 1 and why.endswith(' [every occurrence]'):
                 text = re.sub(rx, lambda m_: new, text)
                 log.append(dict(rule='F', before=old, after=new, reason=why))
+                continue
+            if cnt == 0 and why.endswith(' [only in some versions of the code]'):
                 continue
             if cnt != 1:
                 # the expression this rewrite stands for is gone (or duplicated): leave the text as it is; what
@@ -1065,6 +1074,15 @@ class Unit:
                 # ghost text placed right after the opening brace of the body (cannot be lost)
                 edits.append((1, 1, '\n' + '\n'.join(h['lines']), None))
                 continue
+            if h['where'] == 'atend':
+                at = self._tail_start(body, sn)
+                ls_ = body.rfind('\n', 0, at) + 1
+                # whole-line insertion before the line the tail expression starts on (or before the closing brace)
+                if body[ls_:at].strip() == '':
+                    edits.append((ls_, ls_, '\n'.join(h['lines']) + '\n', None))
+                else:
+                    edits.append((at, at, '\n' + '\n'.join(h['lines']) + '\n', None))
+                continue
             if h['where'] == 'afterloop':
                 if h['nth'] < 1 or h['nth'] > len(loops):
                     self.lost_anchors.append('%s: afterloop %d: function has %d loops' % (path, h['nth'], len(loops)))
@@ -1121,6 +1139,50 @@ class Unit:
                 if tag and part.strip():
                     tags[-1] = tag
         return list(zip(lines, tags))
+
+    def _tail_start(self, body, sn):
+        """index in body where the tail expression of the outermost block starts (or the closing brace if there is none)"""
+        t0, m0 = sn.text, sn.mask
+        close = len(t0.rstrip()) - 1
+        k, last = 1, 1
+        while k < close:
+            if m0[k] == CODE:
+                if t0[k] in '([{':
+                    k = match_close(t0, m0, k)
+                elif t0[k] == ';':
+                    last = k + 1
+            k += 1
+
+        def _skip_ws(k_):
+            while k_ < close and (m0[k_] != CODE or t0[k_] in ' \t\r\n'):
+                k_ += 1
+            return k_
+        while True:
+            k_ = _skip_ws(last)
+            mkw = re.match(r'(for|while|loop|if|match|unsafe)\b|\{', t0[k_:close])
+            if not mkw:
+                break
+            ob_ = k_
+            while ob_ < close and not (m0[ob_] == CODE and t0[ob_] == '{'):
+                if m0[ob_] == CODE and t0[ob_] in '([':
+                    ob_ = match_close(t0, m0, ob_)
+                ob_ += 1
+            if ob_ >= close:
+                break
+            e_ = match_close(t0, m0, ob_) + 1
+            while True:
+                n_ = _skip_ws(e_)
+                if t0.startswith('else', n_) and mkw.group(0) == 'if':
+                    ob2 = n_
+                    while ob2 < close and not (m0[ob2] == CODE and t0[ob2] == '{'):
+                        ob2 += 1
+                    e_ = match_close(t0, m0, ob2) + 1
+                else:
+                    break
+            if _skip_ws(e_) >= close:
+                break
+            last = e_
+        return _skip_ws(last)
 
     def _log(self, entries, where):
         for e in entries:
